@@ -151,6 +151,7 @@ static void session(vh::Rng& r, int integ) {
     for (int i = 0; i < S.nb; ++i) S.jt.push_back(r.below(5) == 0 ? 2 : r.below(2));
     S.rod = r.below(3) != 0; S.plane = r.below(3) == 0; if (!S.rod && !S.plane) S.rod = true;
     S.cspeed = r.below(4) == 0; S.motion = r.below(4) == 0;
+    if (r.below(4) == 0) { S.jt[0] = 0; S.motion = true; if (S.nb < 2) { S.nb = 2; S.jt.push_back(r.below(2)); } }   // guaranteed share with prescribed motion
     {   // keep at least one free mobility: dofs - prescribed - constraint equations >= 1
         int dof = 0; for (int j : S.jt) dof += (j == 0 ? 1 : j == 1 ? 3 : 6);
         if (S.jt[0] != 0) S.cspeed = S.motion = false;
